@@ -1,7 +1,7 @@
 #!/bin/bash
 # runs every thorough command (real deadlines), evidence to /tmp/thorough_ev; cheap properties first
 cd /verif
-order="C01 C18 C30 C45 C43 C16 C27 C38 C39 C05 C35 C22 C23 C47 C36 C42 C11 C26 C25 C09 C29 C13 C10 C21 C02 C44 C14 C17 C07 C04 C03 C06"
+order=${ORDER:-"C01 C18 C30 C45 C43 C16 C27 C38 C39 C05 C35 C22 C23 C47 C36 C42 C11 C26 C25 C09 C29 C13 C10 C21 C02 C44 C14 C17 C07 C04 C03 C06 C12 C15"}
 for p in $order; do
   t0=$(date +%s)
   VERIF_EVIDENCE_DIR=/tmp/thorough_ev ./check $p thorough > /tmp/thor_$p.log 2>&1; rc=$?
